@@ -1,6 +1,7 @@
 """C11 votes pooled only for identical claims (pure part): SignBinding.tla, family C11.
 
-Digest = the store key under which skyway's Attest pools votes: prefix(chain_reference_id) ++ GetAttestationKey(skyway_nonce, ClaimHash()).
+Two validators submit the two claims of an obligation to the REAL skyway Keeper.Attest (E1); the raw store keys of the attestations created
+(prefix(chain_reference_id) ++ GetAttestationKey(skyway_nonce, ClaimHash())) are read back: one key = the votes were pooled.
 Field lists of every EthereumClaim implementation linked into the binary are obtained by reflection."""
 from pipeline import Gen
 from signbinding import SignBindingBase
